@@ -147,7 +147,7 @@ func checkRound(t *rapid.T, w *chain.World, r *rux.Router, pm *chain.PModel, pro
 			ev.Class("chain:1-2")
 		}
 		if len(info.Chain) == 63 {
-			ev.Excluded("K1:IsAborted-not-observed-for-chain-of-63")
+			ev.Class("chain:exactly-63-handlers")
 		}
 		if nsub > 0 {
 			ev.Class("program-with-nested-requests")
